@@ -114,6 +114,7 @@ R = {
     "prov_fragment_attrs": tiered(extra.prov_fragment_attrs),
     "own_layout_input": tiered(extra.own_layout_input),
     "own_fresh_fragment": tiered(extra.own_fresh_fragment),
+    "prov_after_branch_order": tiered(extra.prov_after_branch_order),
     "sent_numeric_attrs": tiered(extra.sent_numeric_attrs),
     "ord_complete_loops": tiered(extra.ord_complete_loops),
     "own_mutable_defaults_layout": named("own_mutable_defaults_layout", own.own_mutable_defaults, "quick", tuple(own.SKIP_MODULES), 2),
@@ -156,24 +157,24 @@ prop("C03", ["tt_compatible", "prov_matcher_shape", "who_may_bond", "prov_matche
      "'exactly that many' bonds depends on first-match search order over runtime lists",
      floors={"PROV.option-forwarding": 8, "ORD.complete-loops": 11, "SENT.order-zero": 20, "TT.compatible": 1, "PROV.matcher-shape": 4, "OWN.sole-bond-site": 1, "PROV.matcher-args": 1,
              "PROV.legacy-forwarded": 2, "TRIP.bond-loop": 3, "PAIR.resolver-consume": 3, "PROV.bond-edge": 2, "PROV.bond-order": 1})
-prop("C04", ["tab_reader_symbols", "da_reader", "da_globals_reader", "sib_ring_handlers", "prov_node_attributes", "sent_order_zero"],
+prop("C04", ["tab_reader_symbols", "da_reader", "da_globals_reader", "sib_ring_handlers", "prov_node_attributes", "sent_order_zero", "prov_after_branch_order"],
      "a sliver: the reader's symbol table equals the documented one and its guard admits every symbol; no possibly-unbound local on a feasible path of the "
      "reader functions; the %nn and digit ring handlers perform the same open/close protocol; a ring bond joins opening and closing node with the order "
      "written at the opening marker and the pending ring order is reset after every marker; node attributes come from the node's own text",
      "whether nodes, edges and orders are the ones the grammar denotes: index arithmetic over the pattern string (simultaneous branch closings, "
      "unbounded %nn digits) has no structural witness in reach",
-     floors={"SENT.order-zero": 20, "TAB.reader-symbols": 2, "DA.reader": 5, "SIB.S2-ring-handlers": 3, "PROV.ring-edges": 5, "PROV.node-attributes": 4})
-prop("C05", ["da_reader", "trip_multiplier", "sib_multiplier_scans", "sent_anchor_key", "sent_order_zero"],
+     floors={"PROV.after-branch-order": 2, "SENT.order-zero": 20, "TAB.reader-symbols": 2, "DA.reader": 5, "SIB.S2-ring-handlers": 3, "PROV.ring-edges": 5, "PROV.node-attributes": 4})
+prop("C05", ["da_reader", "trip_multiplier", "sib_multiplier_scans", "sent_anchor_key", "sent_order_zero", "prov_after_branch_order"],
      "definite assignment in the branch expansion block (base_anchor); trip counts of node loop, recipe entries, _expand_branch and the branch loop "
      "(multiplier - 1); both multiplier number scans stop at the same token set including the order symbols",
      "isomorphism of shorthand and longhand for nested anchors (prev_node + offset arithmetic), bond orders between copies",
-     floors={"SENT.anchor-key": 1, "DA.reader": 5, "TRIP.multiplier": 4, "SIB.S3-multiplier-scan": 2})
+     floors={"PROV.after-branch-order": 2, "SENT.anchor-key": 1, "DA.reader": 5, "TRIP.multiplier": 4, "SIB.S3-multiplier-scan": 2})
 prop("C06", ["sib_atomistic_level", "ord_resolve_handover", "sib_drivers", "ord_resolve_phases", "prov_squash", "prov_bond_edge", "own_fresh_fragment", "prov_option_forwarding"],
      "reader and resolver use the same 'last level and last_all_atom' predicate (linear normal form); hand-over of fine graph to coarse graph, names, "
      "level dictionary, counter advanced once after last use; resolve_iter / resolve_all only delegate",
      "isomorphism with the flattened two-level string; per-step guarantees are decided under C02/C03",
      floors={"OWN.fresh-fragment": 2, "ORD.resolve-phases": 10, "SIB.S4-atomistic-level": 4, "ORD.resolve-handover": 4, "SIB.S7-drivers": 3, "PROV.level-index": 1, "ORD.counter": 1})
-prop("C07", ["tab_writer_symbols", "emit_write_graph", "prov_ring_edges", "sent_order_zero", "prov_option_forwarding"],
+prop("C07", ["tab_writer_symbols", "emit_write_graph", "prov_ring_edges", "sent_order_zero", "prov_option_forwarding", "prov_after_branch_order"],
      "writer table restricted to 0..4 is the inverse of the reader's table and the documented one; per-node and per-ring emission words over all "
      "guard assignments: tree-edge symbol present iff needed and placed where the reader of that format looks (before '(' in CGsmiles, inside in "
      "OpenSMILES), ring symbol immediately before a new marker iff needed, independent of the node-format flag",
